@@ -24,7 +24,7 @@ impl Clone for UriHttps {
 #[verifier::external_body] pub struct ManifestHash { _opaque: () }
 
 #[derive(Structural, PartialEq, Eq)]
-pub enum ErrorKind { NotFound, UnexpectedEof, Other }
+pub enum ErrorKind { NotFound, AlreadyExists, PermissionDenied, UnexpectedEof, Interrupted, Other }
 #[verifier::external_body] pub struct IoError { _opaque: () }
 impl IoError {
     pub uninterp spec fn kind_spec(&self) -> ErrorKind;
